@@ -82,7 +82,7 @@ P = {
              note="float formatting is opaque (coordinates are pre-formatted tokens); labels are 0..n-1, listed in any order.",
              tech="Lean 4 proof (file-level write/read for all lengths) + correspondence + length-targeted round-trip probe"),
  "C10": dict(text="The Lean reference reader (lexer + recogniser from the grammar, tables regenerated from the ATN) is compared with the real parser "
-             "on sentences, single-token edits, every element and table-neighbour pair: accept/reject, exception type, graph. Proved: "
+             "on sentences, single-token edits, every element and table-neighbour pair, attribute values at the 4300-digit limit: accept/reject, exception type, graph (bond-free sentences stating 65 536-120 000 atoms: real parser against the harness's reference denotation only, the model driver being quadratic). Proved: "
              "acceptance exactly (C10_accepts_iff: accepted iff a sentence whose indices exist, without self-bond, duplicate attribute or over-long literal); "
              "every rejection is TucanParserException; the recogniser accepts exactly the declarative grammar; the returned graph read off the string's syntax tree (C10_denotes: "
              "n atoms, the formula's expansion by non-decreasing Z, bonded exactly where a tuple says, mass/radical exactly where a block says, nothing else); the element table is the periodic table.",
@@ -105,13 +105,13 @@ P = {
              "(C14_pipeline_listing_oblivious: the hash-seed / insertion-history quantifier for the modelled code), value semantics, and a toy lazily-filled cache (defined in the proof file, not derived from the ANTLR runtime; every interleaving and history of that toy). Thread "
              "switching inside the ANTLR runtime/networkx/igraph cannot be exhibited by the model and is sampled: subprocesses under several "
              "PYTHONHASHSEED values and call orders, 8 threads with a 1 microsecond switch interval; the caller scribbles on every result "
-             "and every operation runs twice per process, so shared or cached mutable results show.",
+             "and every operation runs twice per process, so shared or cached mutable results show; the writer also with calc_coordinates=True (layout outside the model, bytes compared).",
              note="CPython scheduling is outside every theorem.",
              tech="Lean 4 proof (order-obliviousness, cache model) + multi-process/multi-thread differential"),
  "C15": dict(text="PARTIAL. Proved about the model for graphs of every size and shape: the pipeline returns a string and the parser accepts it (C15_v3000_text_to_string: from the text of a conformant V3000 file to a string in canonical layout that parses back); the "
              "refinement stops within n rounds; the BFS relabelling (well-founded recursion) never raises and meets its assertion. Python's "
              "stack, memory, bliss's running time and ANTLR's recursion are outside the model; the probe runs the real pipeline on depth-linear "
-             "families in the thousands of atoms.",
+             "families in the thousands of atoms and the real parser on bond-free sentences stating up to 120 000 atoms.",
              note="", tech="Lean 4 proof (totality, termination bound) + correspondence + large-input probe"),
  "C16": dict(text="Proved about the model: the helper's result is the argument renamed by a bijection of its label set (all atom and bond "
              "attributes carried), nodes in label order, and when the argument has at least two bonds and two atoms that are not bonded, some pair of labels is bonded in the argument and not in the result (C16_edges_differ, in terms of adjacency). The harness replays the real "
